@@ -107,7 +107,7 @@ def slice_lines(text, first_regex, last_regex, what=''):
     m0 = re.search(first_regex, text, re.M)
     if not m0:
         raise ExtractError('first regex %r not found %s' % (first_regex, what))
-    m1 = re.compile(last_regex, re.M).search(text, m0.end())
+    m1 = m0 if last_regex is None else re.compile(last_regex, re.M).search(text, m0.end())
     if not m1:
         raise ExtractError('last regex %r not found %s' % (last_regex, what))
     a = text.rfind('\n', 0, m0.start()) + 1
